@@ -1,4 +1,5 @@
 import PyCraft.Props.C12
+import PyCraft.Props.C12Bytes
 #print axioms PyCraft.C12.step_inv
 #print axioms PyCraft.C12.run_inv
 #print axioms PyCraft.C12.only_holder_mid_frame
@@ -14,3 +15,10 @@ import PyCraft.Props.C12
 #print axioms PyCraft.C12.closed_socket_discipline
 #print axioms PyCraft.C12.fail_only_forced_write
 #print axioms PyCraft.C12.all_sent_or_dropped_after_disconnect_partial
+#print axioms PyCraft.C12Bytes.wire_bytes_are_whole_frames
+#print axioms PyCraft.C12Bytes.server_decodes_exactly_sent
+#print axioms PyCraft.C12Bytes.server_sees_fifo_per_thread
+#print axioms PyCraft.C12Bytes.server_sees_each_packet_once
+#print axioms PyCraft.C12Bytes.server_decodes_exactly_sent_encrypted
+#print axioms PyCraft.C12Bytes.server_decodes_exactly_sent_cfb8
+#print axioms PyCraft.C12Bytes.server_decodes_exactly_sent_wrappers
